@@ -403,6 +403,7 @@ func runC09(c *Ctx, tier string) {
 	runBitmapWordLoops(c, "C09-B1")
 	runBitmapShiftCounts(c, "C09-B2")
 	c.borrow(func(t *Ctx) { runVcacheLoadsWhatItProjects(t, "C03-P2") }, map[string]string{"C03-P2": "C09-P2"})
+	runVamVectorsOwnTheirSlices(c, "C09-V1")
 }
 
 func init() {
